@@ -33,6 +33,11 @@ const (
 // which can be addressed by the 16-bit operands of our instructions.
 const maxProgramSize = 65536
 
+// maxTreeDepth is the deepest syntax-tree the compiler will walk.  Every
+// level of the tree emits at least one byte of bytecode, so a deeper tree
+// could not be compiled within maxProgramSize in any case.
+const maxTreeDepth = maxProgramSize
+
 // Eval is our public-facing structure which stores our state.
 type Eval struct {
 	// Script holds the script the user submitted in our constructor.
@@ -55,6 +60,9 @@ type Eval struct {
 
 	// user-defined functions
 	functions map[string]environment.UserFunction
+
+	// depth is how deep inside the syntax-tree the compiler is.
+	depth int
 
 	// Mutex to allow concurrent runs
 	mutex sync.Mutex
